@@ -1,20 +1,196 @@
-import Cpppo.Model.History
+import Cpppo.Proofs.History
 
-/-! # C18 (work in progress): witnesses -/
+/-!
+# C18 — History replay delivers every logged record exactly once, in order, on time
+
+The theorems are about the model `Cpppo.History` of `history/files.py` (`reader.open`, `loader.load`)
+with the three repairs of `fixes/C18-*.patch` (`Fix.new`); the code as it was (`Fix.old`) is kept in
+the model and shown to violate the property on concrete histories.
+
+Quantification: every history `H` (any number of files, visited newest first as `reader.open` does;
+any lines: records with usable or unusable payloads, comments, lines with an unparsable timestamp),
+every look-ahead, every schedule of `load` calls (clock, `limit`, `upcoming`) whose clock does not go
+back, every start point (the clock of the first call).  Hypothesis `WF H` (decidable):
+  * every file begins (after comments) with a parseable record whose payload is JSON (the "initial
+    frame"; `reader.open` skips other files by design and the loader fails on a damaged first frame),
+  * timestamps do not decrease along the history,
+  * the first timestamps of the files strictly increase.  Given the second, this is equivalent to: a
+    file whose records all carry one timestamp is followed by a file that starts strictly later.
+The last condition is what makes `delivered_exactly_once_partial` *partial*: `reader.open` identifies
+files by timestamps only, and `exactly_once_all_fails` shows that without it records are lost
+(known finding, `known_findings.json`).
+
+`spanLines H c` are the lines of the start file (the newest file whose first record is not later
+than `c`, else the oldest file) and of all newer files, oldest first; `deliverable` keeps the
+records with a non-empty register payload, as (timestamp, payload) — the events that must come out.
+-/
 namespace Cpppo.History
 
-def R (t : Time) (v : Int) : Line := .recd t (.regs [(40001, v)])
+/-- the events delivered by the first `n` calls, in order of delivery -/
+def deliveredBy (outs : List LoadOut) (n : Nat) : List Event := ((outs.take n).map outEvents).flatten
 
-def eventsOf : List LoadOut → List (List Event)
-  | [] => []
-  | .hang :: r => [] :: eventsOf r
-  | .done _ _ e :: r => e :: eventsOf r
+/-- all events delivered, in order of delivery -/
+def delivered (outs : List LoadOut) : List Event := (outs.map outEvents).flatten
 
-/-- finding (a) on the old code: record 1040 of the newest file is delivered twice -/
+section
+variable (H : History) (o : Opts) (hfix : o.fix = .new) (hwf : WF H)
+  (a : LoadArgs) (as : List LoadArgs) (hmono : ClockMono (a :: as))
+include hfix hwf hmono
+
+/-- **Exactly once, in order, as logged** (partial: under `WF`).  Every `load` call returns (the
+loader never hangs), and the events delivered by the whole schedule, in order of delivery, are an
+initial segment of the events of the history from the start file on: nothing is delivered twice,
+nothing is skipped, nothing is reordered, timestamps and values are those logged.  Holds with any
+`limit` / `upcoming` arguments. -/
+theorem delivered_exactly_once_partial :
+    (runLoads H o (a :: as) {}).length = (a :: as).length ∧
+    (∀ out ∈ runLoads H o (a :: as) {}, out ≠ .hang) ∧
+    ∃ later, deliverable (spanLines H a.clock) = delivered (runLoads H o (a :: as) {}) ++ later := by
+  have ht := run_trace H o hfix hwf a as hmono
+  obtain ⟨h1, h2⟩ := trace_length ht
+  obtain ⟨c, r, h3, h4⟩ := trace_prefix ht
+  exact ⟨h1, h2, deliverable r, by rw [delivered, h4, h3, deliverable_append]⟩
+
+/-- **Never early.**  An event delivered by the `i`-th call is not later than the historical clock
+of that call plus the look-ahead. -/
+theorem never_early (i : Nat) (b : LoadArgs) (out : LoadOut)
+    (hb : (a :: as)[i]? = some b) (hout : (runLoads H o (a :: as) {})[i]? = some out) :
+    ∀ e ∈ outEvents out, e.1 ≤ b.clock + o.la :=
+  trace_never_early (run_trace H o hfix hwf a as hmono) i b out hb hout
+
+/-- **Not late.**  After a call without `limit`/`upcoming`, every event whose time (minus look-ahead)
+the clock of that call has reached has been delivered, by that call or an earlier one. -/
+theorem not_late (i : Nat) (b : LoadArgs) (hb : (a :: as)[i]? = some b)
+    (hl : b.limit = none) (hu : b.upcoming = none) :
+    ∃ later, deliverable (spanLines H a.clock) = deliveredBy (runLoads H o (a :: as) {}) (i + 1) ++ later ∧
+      ∀ e ∈ later, b.clock + o.la < e.1 := by
+  obtain ⟨c, r, h1, h2, h3⟩ :=
+    trace_not_late (run_trace H o hfix hwf a as hmono) (spanLines_sorted hwf a.clock) i b hb hl hu
+  exact ⟨deliverable r, by rw [deliveredBy, h2, h1, deliverable_append],
+    fun e he => h3 _ (mem_deliverable_ts he)⟩
+
+/-- **On time** (the three clauses in one equation).  With calls that carry no `limit`/`upcoming`,
+what has been delivered after the `i`-th call is exactly the sequence of the events of the history
+(from the start file on) whose time the clock of that call, plus look-ahead, has reached. -/
+theorem replay_on_time (i : Nat) (b : LoadArgs) (hb : (a :: as)[i]? = some b)
+    (hl : b.limit = none) (hu : b.upcoming = none) :
+    deliveredBy (runLoads H o (a :: as) {}) (i + 1) =
+      (deliverable (spanLines H a.clock)).filter (fun e => e.1 ≤ b.clock + o.la) := by
+  obtain ⟨c, r, h1, h2, h3, h4⟩ :=
+    trace_on_time (run_trace H o hfix hwf a as hmono) hmono (spanLines_sorted hwf a.clock) i b hb hl hu
+  rw [deliveredBy, h2, h1, deliverable_append, List.filter_append]
+  have hc : (deliverable c).filter (fun e => e.1 ≤ b.clock + o.la) = deliverable c := by
+    rw [List.filter_eq_self]
+    intro e he
+    simpa using h3 _ (mem_deliverable_ts he)
+  have hr : (deliverable r).filter (fun e => e.1 ≤ b.clock + o.la) = [] := by
+    rw [List.filter_eq_nil_iff]
+    intro e he
+    have := h4 _ (mem_deliverable_ts he)
+    simp only [decide_eq_true_eq, Nat.not_le]
+    exact this
+  rw [hc, hr, List.append_nil]
+
+/-- **Completion.**  When the loader is EXHAUSTED or COMPLETE, every event of the history from the
+start file on has been delivered (exactly once and in order, by `delivered_exactly_once_partial`). -/
+theorem complete_all_delivered
+    (hst : (lastState (runLoads H o (a :: as) {}) {}).st = .exhausted ∨
+           (lastState (runLoads H o (a :: as) {}) {}).st = .complete) :
+    delivered (runLoads H o (a :: as) {}) = deliverable (spanLines H a.clock) :=
+  trace_exhausted (run_trace H o hfix hwf a as hmono) (by simp) {} hst
+
+end
+
+/-! ### Non-vacuity -/
+
+def R (t : Time) (v : Int) (reg : Nat := 40001) : Line := .recd t (.regs [(reg, v)])
+
+/-- three files (newest first), equal timestamps inside and across a boundary where that is allowed,
+a comment, a line with a damaged timestamp, a truncated payload -/
+def H0 : History :=
+  [[R 1040 6, R 1040 7 40002],
+   [.comment, R 1020 3, .corrupt, .recd 1025 .bad, R 1030 4, R 1040 5],
+   [R 1000 1, R 1010 2 40002]]
+
+example : WF H0 := by decide
+
+def sched0 : List LoadArgs :=
+  [⟨1005, none, none⟩, ⟨1015, some 1, none⟩, ⟨1030, none, some 1030⟩, ⟨1030, none, none⟩, ⟨1050, none, none⟩,
+   ⟨1060, none, none⟩]
+
+example : ClockMono sched0 := by decide
+
+/-- the replay of `H0` from 1005 with look-ahead 5 delivers all seven events once, in order -/
+example : delivered (runLoads H0 { la := 5 } sched0 {}) = deliverable (spanLines H0 1005) ∧
+    (lastState (runLoads H0 { la := 5 } sched0 {}) {}).st = .complete := by decide +kernel
+
+example : (deliverable (spanLines H0 1005)).length = 7 := by decide +kernel
+
+/-! ### The code before the repairs, and what remains open -/
+
+def eventsOf (outs : List LoadOut) : List (List Event) := outs.map outEvents
+
+/-- finding (a): a file with a single record that had to be awaited is opened a second time, its
+record is delivered twice (`fixes/C18-reopen-guard.patch`) -/
 theorem old_duplicates :
-    (eventsOf (runLoads [[R 1040 5], [R 1020 3, R 1030 4], [R 1000 1, R 1010 2]] { fix := .old }
-      [⟨1025, none, none⟩, ⟨1035, none, none⟩, ⟨1045, none, none⟩] {})).flatten
+    delivered (runLoads [[R 1040 5]] { fix := .old } [⟨1025, none, none⟩, ⟨1075, none, none⟩] {})
+      = [(1040, [(40001, 5)]), (1040, [(40001, 5)])] ∧
+    delivered (runLoads [[R 1040 5]] { fix := .new } [⟨1025, none, none⟩, ⟨1075, none, none⟩] {})
+      = [(1040, [(40001, 5)])] := by decide +kernel
+
+/-- finding (a) as first observed: three files, replay from the middle, one call per step -/
+theorem old_duplicates_three_files :
+    delivered (runLoads [[R 1040 5], [R 1020 3, R 1030 4], [R 1000 1, R 1010 2]] { fix := .old }
+      [⟨1025, none, none⟩, ⟨1035, none, none⟩, ⟨1045, none, none⟩] {})
     = [(1020, [(40001, 3)]), (1030, [(40001, 4)]), (1040, [(40001, 5)]), (1040, [(40001, 5)])] := by
   decide +kernel
+
+/-- finding (c): a line with a damaged timestamp ends the replay FAILED and the later records are
+lost (`fixes/C18-corrupt-timestamp.patch`) -/
+theorem old_fails_on_corrupt_timestamp :
+    let outs := runLoads [[R 1000 1, .corrupt, R 1010 2, R 1020 3]] { fix := .old }
+      [⟨990, none, none⟩, ⟨1000, none, none⟩, ⟨1030, none, none⟩] {}
+    delivered outs = [(1000, [(40001, 1)])] ∧ (lastState outs {}).st = .failed := by decide +kernel
+
+/-- finding (d): a file that ends in a record with an unusable payload is opened again and again; the
+`load` call never returns (`fixes/C18-reopen-guard.patch`) -/
+theorem old_hangs_on_trailing_bad_payload :
+    (runLoads [[R 1020 4, R 1030 5], [R 1000 1, .recd 1010 .bad]] { fix := .old }
+      [⟨990, none, none⟩, ⟨1000, none, none⟩, ⟨1010, none, none⟩] {}).getLast? = some .hang := by
+  decide +kernel
+
+/-- the hypothesis without the condition on the first timestamps of the files -/
+structure WF0 (H : History) : Prop where
+  first_ok : ∀ f ∈ H, FirstOk f
+  mono : (tsOf (chron H)).Pairwise (· ≤ ·)
+
+instance (H : History) : Decidable (WF0 H) :=
+  if h : (∀ f ∈ H, FirstOk f) ∧ (tsOf (chron H)).Pairwise (· ≤ ·) then isTrue ⟨h.1, h.2⟩
+  else isFalse fun w => h ⟨w.first_ok, w.mono⟩
+
+/-- the property at full strength: for every history with non-decreasing timestamps (equal
+timestamps anywhere), a replay that is COMPLETE has delivered every event from the start file on -/
+def ExactlyOnceAll : Prop :=
+  ∀ (H : History) (la : Time) (a : LoadArgs) (as : List LoadArgs), WF0 H → ClockMono (a :: as) →
+    (lastState (runLoads H { la := la } (a :: as) {}) {}).st = .complete →
+    delivered (runLoads H { la := la } (a :: as) {}) = deliverable (spanLines H a.clock)
+
+/-- finding (b), open: files `.1` = [1000], `.0` = [1000, 1010], `''` = [1020, 1030] replayed from 990.
+After the one-timestamp file `.1` the next file must start strictly later; `.0` starts at the same
+timestamp, is skipped, and its two records are never delivered. -/
+theorem exactly_once_all_fails : ¬ ExactlyOnceAll := by
+  intro h
+  have := h [[R 1020 4, R 1030 5], [R 1000 2, R 1010 3], [R 1000 1]] 0 ⟨990, none, none⟩
+    [⟨1000, none, none⟩, ⟨1010, none, none⟩, ⟨1020, none, none⟩, ⟨1030, none, none⟩, ⟨1040, none, none⟩]
+    (by decide) (by decide) (by decide +kernel)
+  revert this
+  decide +kernel
+
+/-- what the repaired code delivers on that history: the record of `.1`, then `''`; `.0` is lost -/
+theorem equal_boundary_loses_a_file :
+    delivered (runLoads [[R 1020 4, R 1030 5], [R 1000 2, R 1010 3], [R 1000 1]] {}
+      [⟨990, none, none⟩, ⟨1000, none, none⟩, ⟨1010, none, none⟩, ⟨1020, none, none⟩, ⟨1030, none, none⟩,
+       ⟨1040, none, none⟩] {})
+    = [(1000, [(40001, 1)]), (1020, [(40001, 4)]), (1030, [(40001, 5)])] := by decide +kernel
 
 end Cpppo.History
